@@ -547,9 +547,17 @@ class Contract:
         self.requires_.append((cid, lam))
         return self
 
-    def ensures(self, cid, lam, on="return"):
+    def ensures(self, cid, lam, on="return", at_calls=True):
+        """at_calls=False: proved for the function, but not assumed at call sites (e.g. it speaks about the
+        identity of an argument object that the caller's value model represents differently)"""
         self.ensures_.append((cid, lam, on))
+        if not at_calls:
+            if "proof_only" not in self.__dict__:
+                self.proof_only = set()
+            self.proof_only.add(cid)
         return self
+
+    proof_only = frozenset()
 
     def raises(self, cid, exc_cls, when=None, fields=None):
         """The function raises exc_cls exactly when `when(old state)` holds (when=None: may raise
